@@ -388,6 +388,21 @@ class MessageAccumulator:
             batch.failure(exception)
         self._exception = exception
 
+    def fail_undrained(self, exception):
+        """Fail the batches that were never drained. Batches waiting for a
+        retry stay queued: they may have reached the broker already.
+        """
+        for tp in list(self._batches.keys()):
+            batches = self._batches[tp]
+            retries = [batch for batch in batches if batch.retry_count > 0]
+            for batch in batches:
+                if batch.retry_count == 0:
+                    batch.failure(exception)
+            if retries:
+                self._batches[tp] = collections.deque(retries)
+            else:
+                del self._batches[tp]
+
     async def close(self):
         self._closed = True
         await self.flush()
